@@ -25,27 +25,102 @@ structure FileRel (R : Doc → Doc → Prop) : Prop where
   services : ∀ d0 d m, R d0 d → R d0 { d with services := d.services ++ [m] }
   imported : ∀ d0 d imp, R d0 d → R (startDoc d.namespaces (d.knownNodes ++ d.nodes)) imp → R d0 (d.extend imp)
 
-structure FileKeeps (R : Doc → Doc → Prop) (files : String → Option XFile) (fuel : Nat) : Prop where
-  int : ∀ name known kn, ⦃fun st => ⌜name ∉ st.processed⌝⦄ readXmlInternal files name known kn fuel ⦃⇓ d => ⌜R (startDoc known kn) d⌝⦄
-  top : ∀ file all node d0 d, R d0 d → ⦃fun _ => ⌜True⌝⦄ readTop files file all node d fuel ⦃⇓ d' => ⌜R d0 d'⌝⦄
-  xsd : ∀ file all schema anc d0 d, R d0 d → ⦃fun _ => ⌜True⌝⦄ readXsd files file all schema anc d fuel ⦃⇓ d' => ⌜R d0 d'⌝⦄
+set_option linter.unusedSimpArgs false in
+/-- `throw` in the file monad (`StateT RS (Except Err)`): the exceptional postcondition must hold. (Replaces the library's
+    `Spec.throw_MonadExcept`, which leaves universe metavariables behind for this monad stack.) -/
+theorem spec_throw_FM {α} (e : Err) (Q : PostCond α (.arg RS (.except Err .pure))) :
+    ⦃fun _ => Q.2.1 e⦄ (throw e : FM α) ⦃Q⦄ := by
+  intro st h
+  simp [WP.wp, throw, throwThe, MonadExceptOf.throw, PredTrans.pushArg, PredTrans.pushExcept, PredTrans.apply, liftM, monadLift,
+    MonadLift.monadLift, StateT.lift, bind, Except.bind, PredTrans.pure, pure, Except.pure, Id.run]
+  simp [Except.instWP._aux_1, WP.wp, StateT.run, PredTrans.pushExcept, PredTrans.pure, pure, Id.run, ExceptT.run]
+  simpa [PredTrans.apply] using h
 
+set_option linter.unusedSimpArgs false in
+/-- what a partial-correctness triple over the file monad says about a run -/
+theorem fm_run_of_triple {α} (x : FM α) (P : RS → Prop) (Q : α → RS → Prop)
+    (h : ⦃fun st => ⌜P st⌝⦄ x ⦃⇓? a st => ⌜Q a st⌝⦄) (st : RS) (hp : P st) :
+    match x.run st with
+    | .ok (a, st') => Q a st'
+    | .error _ => True := by
+  have := h st hp
+  simp [WP.wp, PredTrans.pushArg, PredTrans.apply] at this
+  simp [Except.instWP._aux_1, WP.wp, StateT.run, PredTrans.pushExcept, PredTrans.pure, pure, Id.run, ExceptT.run, PredTrans.apply] at this
+  revert this
+  simp only [StateT.run]
+  cases x st with
+  | error e => intro _; trivial
+  | ok r => simp
+
+macro "fk " hR:ident d0:term : tactic => `(tactic| (
+  (try simp only [SPred.down_pure, PostCond.mayThrow] at *)
+  (try intros)
+  (try show $d0 _)
+  repeat (first | assumption | trivial | exact True.intro | exact ExceptConds.entails.rfl | apply FileRel.services $hR | apply FileRel.bindings $hR | apply FileRel.ports $hR | apply FileRel.messages $hR | apply FileRel.nodes $hR | apply FileRel.imported $hR | apply Keeps.run (P := $d0) (keeps_service _ _) | apply Keeps.run (P := $d0) (keeps_binding _ _) | apply Keeps.run (P := $d0) (keeps_port _) | apply Keeps.run (P := $d0) (keeps_message (FileRel.inv $hR _) _ _ _) | apply Keeps.run (P := $d0) ((block_keeps (FileRel.inv $hR _) _).tfn _ _))))
+
+structure FileKeeps (R : Doc → Doc → Prop) (files : String → Option XFile) (fuel : Nat) : Prop where
+  int : ∀ name known kn, ⦃fun st => ⌜name ∉ st.processed⌝⦄ readXmlInternal files name known kn fuel ⦃⇓? d => ⌜R (startDoc known kn) d⌝⦄
+  top : ∀ file all node d0 d, R d0 d → ⦃fun _ => ⌜True⌝⦄ readTop files file all node d fuel ⦃⇓? d' => ⌜R d0 d'⌝⦄
+  xsd : ∀ file all schema anc d0 d, R d0 d → ⦃fun _ => ⌜True⌝⦄ readXsd files file all schema anc d fuel ⦃⇓? d' => ⌜R d0 d'⌝⦄
+
+attribute [local irreducible] runNM in
 theorem file_keeps {R} (hR : FileRel R) (files : String → Option XFile) : ∀ fuel, FileKeeps R files fuel := by
   intro fuel
   induction fuel with
   | zero =>
     constructor
-    · intro name known kn; mvcgen [readXmlInternal]
-    · intro file all node d0 d _; mvcgen [readTop]
-    · intro file all schema anc d0 d _; mvcgen [readXsd]
+    · intro name known kn; mvcgen [readXmlInternal, spec_throw_FM, -Spec.throw_MonadExcept]
+    · intro file all node d0 d _; mvcgen [readTop, spec_throw_FM, -Spec.throw_MonadExcept]
+    · intro file all schema anc d0 d _; mvcgen [readXsd, spec_throw_FM, -Spec.throw_MonadExcept]
   | succ fuel ih =>
     have hint := ih.int
     have htop := ih.top
     have hxsd := ih.xsd
     constructor
     · intro name known kn
-      mvcgen [readXmlInternal]
-      all_goals trace_state; sorry
-    all_goals sorry
+      have htop' := fun file all node d (hd : R (startDoc known kn) d) => htop file all node (startDoc known kn) d hd
+      mvcgen [readXmlInternal, spec_throw_FM, -Spec.throw_MonadExcept, htop']
+      case inv1 => exact ⇓? (_, d) => ⌜R (startDoc known kn) d⌝
+      all_goals (try simp_all)
+      · show R (startDoc known kn) (match List.find? (fun x => XNode.isElem x) _ with
+          | some root => (startDoc known kn).collectNamespaces (XNode.nss root)
+          | none => startDoc known kn)
+        split
+        · exact (hR.inv _).collect _ _ (hR.refl _ _)
+        · exact hR.refl _ _
+    · intro file all node d0 d hd
+      have hxsd' := fun file all schema anc d (hd : R d0 d) => hxsd file all schema anc d0 d hd
+      have key : R d0 (match node.attr? "targetNamespace" with
+          | some tns => d.switchToTargetNamespace tns
+          | none => d) := by
+        split
+        · exact (hR.inv d0).switch _ _ hd
+        · exact hd
+      mvcgen [readTop, spec_throw_FM, -Spec.throw_MonadExcept, hxsd']
+      case inv1 => exact ⇓? (_, d') => ⌜R d0 d'⌝
+      all_goals fk hR (R d0)
+      all_goals exact key
+    · intro file all schema anc d0 d hd
+      have hint' := fun name kn known => hint name known kn
+      mvcgen [readXsd, spec_throw_FM, -Spec.throw_MonadExcept, hint']
+      case inv1 => exact ⇓? (_, d') => ⌜R d0 d'⌝
+      all_goals fk hR (R d0)
+      · simp_all
+
+/-- **whatever `read_xml` returns is `R`-related to the empty start document** — every file table, start file, fuel -/
+theorem readXml_rel {R} (hR : FileRel R) (files : List XFile) (start : String) (fuel : Nat) (d : Doc)
+    (h : readXml files start fuel = .ok d) : R (startDoc [] []) d := by
+  have ht := (file_keeps hR (fileTable files) fuel).int start [] []
+  have := fm_run_of_triple _ _ (fun d _ => R (startDoc [] []) d) ht { processed := [] } (by simp)
+  simp only [readXml, readXmlOn] at h
+  revert this
+  cases hr : (readXmlInternal (fileTable files) start [] [] fuel).run { processed := [] } with
+  | error e => simp [hr] at h
+  | ok r =>
+    obtain ⟨d', st'⟩ := r
+    simp only [hr] at h
+    intro this
+    cases h
+    exact this
 
 end ZeepVerif.Lemmas.KeepsFile
